@@ -1147,10 +1147,16 @@ def run(repo):
 
 
 def same(terms, what):
-    ref_site, ref = terms[0]
-    for site, t in terms[1:]:
-        if t != ref:
-            raise Unknown(site, "%s differs from the other sites: here `%s`, at %s `%s`" % (what, " ".join(t.split()), ref_site, " ".join(ref.split())))
+    """all sites must have produced the same term; the deviating site(s) are the ones outside the largest group"""
+    groups = {}
+    for site, t in terms:
+        groups.setdefault(t, []).append(site)
+    if len(groups) <= 1:
+        return
+    major = max(groups, key=lambda t: (len(groups[t]), -[x[1] for x in terms].index(t)))
+    for site, t in terms:
+        if t != major:
+            raise Unknown(site, "%s differs from the other sites: here `%s`, at %s `%s`" % (what, " ".join(t.split()), groups[major][0], " ".join(major.split())))
 
 
 PRELUDE = """namespace Qmc.Gen
